@@ -201,10 +201,15 @@ class DownscaleInfo(Lemma):
             exps = []
             for k in range(3):
                 v = cs[0][k]
-                is_p2 = isinstance(v, SInt) and z3.is_app(v.t) and v.t.decl().name() == "pow2"
+                if isinstance(v, int):
+                    is_p2 = v >= 1 and (v & (v - 1)) == 0
+                    ex = v.bit_length() - 1
+                else:
+                    is_p2 = isinstance(v, SInt) and z3.is_app(v.t) and v.t.decl().name() == "pow2"
+                    ex = SInt(v.t.arg(0)) if is_p2 else None
                 c.prove(f"chunk[{k}]-is-a-power-of-two", is_p2)
                 if is_p2:
-                    exps.append(SInt(v.t.arg(0)))
+                    exps.append(ex)
             if len(exps) == 3:
                 tot = exps[0] + exps[1] + exps[2]
                 c.prove("chunk-exponents-non-negative", And(*[x >= 0 for x in exps]))
